@@ -88,8 +88,68 @@ def prove_lemma(repo, reg, name, timeout_ms):
             return dict(name=name, status='proved', backend=f'z3 (induction on {lm.induct}: base + step)',
                         time=time.time() - t0, statement=stmt)
         return dict(name=name, status='unknown', backend='z3', time=time.time() - t0, statement=stmt, model=str(res))
-    # by smt
+    # by smt (optionally once per value of some small-range variables)
     bound, body = lemma_body(ex, name)
+    from . import inst as _inst
+    if lm.cases:
+        import itertools as _it
+        from .discharge import fold
+        names = list(lm.cases)
+        n_ok = 0
+        old_rounds = _inst.ROUNDS[0]
+        _inst.ROUNDS[0] = lm.rounds
+        try:
+            for vals in _it.product(*[list(lm.cases[x]) for x in names]):
+                b2 = z3.substitute(body, *[(bound[x].z, z3.IntVal(v)) for x, v in zip(names, vals)])
+                b2 = z3.simplify(fold(b2))
+                if lm.by == 'bv':
+                    r = prove_bv(lm, bound, b2, dict(zip(names, vals)), timeout_ms)
+                else:
+                    r = solve_conj(Q([], b2), timeout_ms, False)
+                if r['status'] != 'proved':
+                    return dict(name=name, status=r['status'], backend='z3', time=time.time() - t0, statement=stmt,
+                                model=f'case {dict(zip(names, vals))}: ' + str(r.get('smt_model') or r.get('reason')))
+                n_ok += 1
+        finally:
+            _inst.ROUNDS[0] = old_rounds
+        return dict(name=name, status='proved', backend=f'z3 ({n_ok} cases)', time=time.time() - t0, statement=stmt)
     r = solve_conj(Q([], body), timeout_ms, False)
     return dict(name=name, status=r['status'], backend='z3', time=time.time() - t0, statement=stmt,
                 model=r.get('smt_model'))
+
+
+def prove_bv(lm, bound, body, case, timeout_ms):
+    """Pure bounded arithmetic: unfold the defined functions, fold constants, translate to bit-vectors (with an
+    explicit no-overflow check) and let the bit-vector solver decide."""
+    from . import inst as _inst
+    from .int2bv import translate, expand_defs, Fail
+    from .discharge import fold
+    e = body
+    for _ in range(12):
+        e2 = z3.simplify(fold(expand_defs(e, _inst.DEFS)))
+        if e2.eq(e):
+            break
+        e = e2
+    bounds = {}
+    for n, sv in bound.items():
+        if n in case:
+            continue
+        ub = lm.ubounds.get(n) if getattr(lm, 'ubounds', None) else None
+        if callable(ub):
+            ub = ub(**case)
+        if ub is None:
+            return dict(status='unknown', backend='bv', reason=f'no upper bound declared for {n}')
+        bounds[sv.z.decl().name()] = ub
+    try:
+        f = translate(e, bounds)
+    except Fail as ex_:
+        return dict(status='unknown', backend='bv', reason=f'not translatable: {ex_}')
+    s = z3.SolverFor('QF_BV')
+    s.set('timeout', timeout_ms)
+    for n, sv in bound.items():
+        if n not in case:
+            s.add(z3.ULE(z3.BitVec(sv.z.decl().name() + '!bv', f.sort().size() if False else 192), z3.BitVecVal(bounds[sv.z.decl().name()], 192)))
+    s.add(z3.Not(f))
+    r = s.check()
+    return dict(status='proved' if r == z3.unsat else ('refuted' if r == z3.sat else 'unknown'), backend='z3-bv',
+                smt_model=str(s.model())[:500] if r == z3.sat else None)
